@@ -124,6 +124,11 @@ func (p *c02Prop) afterBlock(b *ibtpBlock, before, after *sim.Dump) {
 			} else if op.expectAccept {
 				s.fail("receipt for %s (next index, request accepted, status allows it) was rejected: %s", op.id, b.receipts[i].Ret)
 			}
+		case "ghost":
+			nIBTP++
+			if b.receipts[i].IsSuccess() {
+				s.fail("%s was accepted", op.desc)
+			}
 		default:
 			nOther++
 			if op.kind == "call" {
@@ -285,6 +290,32 @@ func c02Property(t *rapid.T) {
 		},
 		"transfer": func(t *rapid.T) { s.addTransfer() },
 		"call":     func(t *rapid.T) { p.addCall(t) },
+		"ghost": func(t *rapid.T) {
+			// IBTPs nobody can have accepted before: of a service of a registered chain that was never registered itself
+			// (request or receipt, any index), or a request with the next index whose group names more destinations than
+			// indices. They have to be rejected like every unknown IBTP
+			pr := s.pairs[rapid.IntRange(0, len(s.pairs)-1).Draw(t, "gpair")]
+			proof := []byte("1")
+			ib := &pb.IBTP{From: sim.FullID(s.w.BxhID, pr.srcChain, "ghost"), To: pr.to, Proof: sim.ProofHash(proof)}
+			ib.Type = rapid.SampledFrom([]pb.IBTP_Type{pb.IBTP_INTERCHAIN, pb.IBTP_RECEIPT_SUCCESS, pb.IBTP_RECEIPT_FAILURE, pb.IBTP_RECEIPT_ROLLBACK}).Draw(t, "gtype")
+			ib.Index = rapid.SampledFrom([]uint64{1, 1, 0, 2, 7, 1 << 63}).Draw(t, "gidx")
+			key := pr.srcKey
+			desc := fmt.Sprintf("%s of the unregistered service %s (to %s, index %d)", ib.Type, ib.From, ib.To, ib.Index)
+			if ib.Category() == pb.IBTP_RESPONSE {
+				key = pr.dstKey
+			}
+			if rapid.IntRange(0, 3).Draw(t, "gGroup") == 0 {
+				req, _ := s.countersNow(indexOfPair(s.pairs, pr))
+				ib = &pb.IBTP{From: pr.from, To: pr.to, Index: req + 1, Type: pb.IBTP_INTERCHAIN, Proof: sim.ProofHash(proof),
+					Group: &pb.StringUint64Map{Keys: []string{pr.to, sim.FullID(s.w.BxhID, "chainB", "s1")}, Vals: []uint64{req + 1}}}
+				key = pr.srcKey
+				desc = fmt.Sprintf("request %s -> %s index %d with a group of 2 destinations and 1 index", ib.From, ib.To, ib.Index)
+			}
+			op := &ibtpOp{kind: "ghost", pair: -1, desc: desc}
+			op.tx = s.w.IBTP(key, ib, proof)
+			s.cur = append(s.cur, op)
+			s.logf("%s", desc)
+		},
 		"seal": func(t *rapid.T) {
 			if len(s.cur) == 0 && (s.lastEmpty || rapid.IntRange(0, 2).Draw(t, "emptyBlock") != 0) {
 				t.Skip("empty block")
@@ -342,3 +373,12 @@ func c02Property(t *rapid.T) {
 func TestC02(t *testing.T) { rapid.Check(t, c02Property) }
 
 var _ = fmt.Sprintf
+
+func indexOfPair(ps []*ibtpPair, p *ibtpPair) int {
+	for i, q := range ps {
+		if q == p {
+			return i
+		}
+	}
+	return -1
+}
